@@ -57,6 +57,8 @@ package pcache
 //@ lockchan ProviderCache.writeLock
 //@ protects ProviderCache.writeLock: write, seq
 
+// The advertisement time of a fetched record as the merge rule uses it: the epoch when absent or unparsable.
+//@ spec func effTime(v int) int = ite(parsedTime(str(time.RFC3339), v) == 0, dateTime(1970, 1, 1, 0, 0, 0, 0, time.UTC), parsedTime(str(time.RFC3339), v))
 //@ spec func pcOK(pc val) bool = pc != nil && pc.write != nil && pc.writeLock != nil && !closed(pc.writeLock) && all(k, has(pc.write, k) ==> pc.write[k] != nil) && forall(j, 0, len(pc.sources), pc.sources[j] != nil)
 
 // Sources are interfaces implemented outside this package. ASSUMED: a successful
@@ -94,11 +96,25 @@ package pcache
 //@   loop 2: iteration ghost us0 := pc.write[fetchedInfos[rangeindex + 1].AddrInfo.ID].updateSeq
 //@   loop 2: iteration ensures has(pc.write, fetchedInfos[rangeindex].AddrInfo.ID) && pc.write[fetchedInfos[rangeindex].AddrInfo.ID].seq == seq
 //@   loop 2: iteration ensures !had ==> pc.write[fetchedInfos[rangeindex].AddrInfo.ID].provider == fetchedInfos[rangeindex] && pc.write[fetchedInfos[rangeindex].AddrInfo.ID].updateSeq == seq
+// a new record is entered with its own advertisement time (so that a later, older record cannot replace it):
+//@   loop 2: iteration ensures !had ==> pc.write[fetchedInfos[rangeindex].AddrInfo.ID].lastUpdate == parsedTime(str(time.RFC3339), str(fetchedInfos[rangeindex].LastAdvertisementTime))
+// a record seen again replaces the cached one exactly when its advertisement time (the epoch if absent) is later:
+//@   loop 2: iteration ensures had && effTime(str(fetchedInfos[rangeindex].LastAdvertisementTime)) > lu0 ==> pc.write[fetchedInfos[rangeindex].AddrInfo.ID].provider == fetchedInfos[rangeindex] && pc.write[fetchedInfos[rangeindex].AddrInfo.ID].updateSeq == seq && pc.write[fetchedInfos[rangeindex].AddrInfo.ID].lastUpdate == effTime(str(fetchedInfos[rangeindex].LastAdvertisementTime))
+//@   loop 2: iteration ensures had && effTime(str(fetchedInfos[rangeindex].LastAdvertisementTime)) <= lu0 ==> pc.write[fetchedInfos[rangeindex].AddrInfo.ID].provider == p0 && pc.write[fetchedInfos[rangeindex].AddrInfo.ID].updateSeq == us0 && pc.write[fetchedInfos[rangeindex].AddrInfo.ID].lastUpdate == lu0
 //@   loop 2: iteration ensures had ==> pc.write[fetchedInfos[rangeindex].AddrInfo.ID].expiresAt == zero("time.Time") && pc.write[fetchedInfos[rangeindex].AddrInfo.ID].lastUpdate >= lu0
 //@   loop 2: iteration ensures had ==> (pc.write[fetchedInfos[rangeindex].AddrInfo.ID].provider == p0 && pc.write[fetchedInfos[rangeindex].AddrInfo.ID].updateSeq == us0 && pc.write[fetchedInfos[rangeindex].AddrInfo.ID].lastUpdate == lu0) || (pc.write[fetchedInfos[rangeindex].AddrInfo.ID].provider == fetchedInfos[rangeindex] && pc.write[fetchedInfos[rangeindex].AddrInfo.ID].updateSeq == seq && pc.write[fetchedInfos[rangeindex].AddrInfo.ID].lastUpdate > lu0)
 //@   loop 3: invariant pcOK(pc) && held(pc.writeLock) && pc.seq == seq && seq != old(pc.seq) && updates != nil && isfresh(updates)
 //@   loop 4: invariant pcOK(pc) && held(pc.writeLock) && pc.seq == seq && seq != old(pc.seq) && updates != nil && isfresh(updates)
 //@   loop 5: invariant pcOK(pc) && held(pc.writeLock) && pc.seq == seq && seq != old(pc.seq) && updates != nil && isfresh(updates) && m != nil && isfresh(m)
+// expiry and publication rules, per provider of the write map (loop 4): one still reported is never removed
+// and, if its record changed in this refresh, is re-published; one no longer reported is removed (leaving a tombstone that overrides the main map) only once its removal timer, armed by an earlier refresh, has run out.
+//@   loop 4: iteration ensures cinfo.seq == seq ==> has(pc.write, pid) && (cinfo.updateSeq == seq ==> has(updates, pid))
+//@   loop 4: iteration ensures !has(pc.write, pid) ==> has(updates, pid) && updates[pid] == nil
+//@   at call delete#1: assert cinfo.seq != seq && cinfo.expiresAt != zero("time.Time") && now > cinfo.expiresAt
+// a merged main map has, for every provider of the write map, the updated record if there is one, else the old one:
+//@   loop 5: invariant all(k, visitedkey(pc.write, k) ==> has(m, k) && m[k] == ite(has(updates, k), updates[k], read.m[k]))
+//@   at call Store#2: assert all(k, has(pc.write, k) ==> has(arg1.m, k) && arg1.m[k] == ite(has(updates, k), updates[k], read.m[k]))
+//@   at call Store#1: assert arg1.u == updates && arg1.m == read.m
 
 // fetchMissing (C07): lock balance and guarded access as for Refresh; (C06):
 // a provider that already has an entry in the write map (including a negative
@@ -116,6 +132,13 @@ package pcache
 //@   loop 1: invariant pcOK(pc) && held(pc.writeLock) && cinfo != nil && isfresh(cinfo) && rangeindex < len(pc.sources)
 //@   loop 2: invariant pcOK(pc) && held(pc.writeLock) && updates != nil && isfresh(updates)
 //@   loop 3: invariant pcOK(pc) && held(pc.writeLock) && updates != nil && isfresh(updates) && m != nil && isfresh(m)
+// publication (C06): the snapshot stored answers the provider looked up with the record returned; a merged
+// main map has, for every provider of the write map, the updated record if there is one, else the old one.
+//@   loop 3: invariant all(k, visitedkey(pc.write, k) ==> has(m, k) && m[k] == ite(has(updates, k), updates[k], read.m[k]))
+//@   loop 3: invariant has(pc.write, pid) && has(updates, pid) && updates[pid] == rpinfo
+//@   at call Store#1: assert has(arg1.u, pid) && arg1.u[pid] == rpinfo
+//@   at call Store#2: assert has(arg1.m, pid) && arg1.m[pid] == rpinfo
+//@   at call Store#2: assert all(k, has(pc.write, k) ==> has(arg1.m, k) && arg1.m[k] == ite(has(updates, k), updates[k], read.m[k]))
 
 // Readers (C07): one atomic load per operation; a key present in the loaded
 // snapshot is answered without touching the lock or any source.
